@@ -191,3 +191,27 @@ Proof.
   destruct (srun gen_memoryless gen_burn_flag gen_convex_R (fun k nb' => gen_step k nb' p) nb s (sst0) l) as [st'|] eqn:E; try discriminate.
   inversion H; subst. apply (srun_obs nb p s l _ _ E).
 Qed.
+
+(* ---------------------------------------------------------------------- the unrolled form, on the run *)
+(* after burn-in (m = nb + 1 is the first iteration kept) the (m+d)-th maximisation of the run is handed an explicit convex
+   combination of the statistics computed at iterations m .. m+d: weights >= 0, summing to 1 *)
+Theorem src_run_unrolled (e : env) (nb : Z) (p : Q) (s : nat -> R) (m d : nat) :
+  Z.of_nat m = (nb + 1)%Z -> 1 <= m -> m + d <= e_niter e -> (0 < Q2R p)%R ->
+  exists log r,
+    src_log nb p s (unfold e fit_prog) = Some log /\ nth_error log (m + d - 1) = Some r /\ m_iter r = m + d
+    /\ m_stat r = dot (weights nb (Q2R p) m d) (map s (seq m (S d)))
+    /\ sumR (weights nb (Q2R p) m d) = 1%R /\ Forall (fun w => (0 <= w)%R) (weights nb (Q2R p) m d).
+Proof.
+  intros Hm Hm1 Hd Hp.
+  exists (expected_log nb (Q2R p) s (e_niter e)), (expected_rec nb (Q2R p) s (m + d)).
+  split; [apply src_run_log|]. split; [apply expected_log_nth; lia|]. split; [reflexivity|].
+  split; [simpl m_stat; apply stat_unrolled; auto|]. split; [apply weights_sum | apply weights_nonneg; auto].
+Qed.
+
+(* non-vacuity of the hypotheses of `src_run_unrolled`: the 4-iteration run of ScheduleDemo, burn-in 1, power 0.8, m = 2, d = 1 *)
+Example src_run_unrolled_hypotheses :
+  Z.of_nat 2 = (1 + 1)%Z /\ 1 <= 2 /\ 2 + 1 <= e_niter ScheduleDemo.e4 /\ (0 < Q2R (4 # 5))%R.
+Proof.
+  split; [reflexivity|]. split; [lia|]. split; [simpl; lia|].
+  unfold Q2R. simpl. apply Rmult_lt_0_compat; [apply IZR_lt; reflexivity | apply Rinv_0_lt_compat, IZR_lt; reflexivity].
+Qed.
